@@ -3,6 +3,7 @@ package main
 import (
 	"encoding/json"
 	"fmt"
+	"github.com/formancehq/stack/libs/go-libs/metadata"
 	"math/big"
 	"strings"
 
@@ -188,7 +189,8 @@ func eventOracle(w *worldRun) (string, string) {
 		switch env.Type {
 		case events.EventTypeCommittedTransactions:
 			var p struct {
-				Transactions []ledger.Transaction `json:"transactions"`
+				Transactions    []ledger.Transaction         `json:"transactions"`
+				AccountMetadata map[string]metadata.Metadata `json:"accountMetadata"`
 			}
 			_ = json.Unmarshal(env.Payload, &p)
 			if len(p.Transactions) != 1 {
@@ -196,11 +198,13 @@ func eventOracle(w *worldRun) (string, string) {
 			}
 			for _, l := range visible {
 				if np, ok := l.Data.(ledger.NewTransactionLogPayload); ok && np.Transaction.ID.Cmp(p.Transactions[0].ID) == 0 {
-					if fmt.Sprint(np.Transaction.Postings) == fmt.Sprint(p.Transactions[0].Postings) && np.Transaction.Metadata["tag"] == p.Transactions[0].Metadata["tag"] {
+					if d := txDiff(np.Transaction, &p.Transactions[0]); d != "" {
+						why = "content differs from the persisted entry: " + d
+					} else if !accMetaEqual(np.AccountMetadata, p.AccountMetadata) {
+						why = fmt.Sprintf("account metadata %v differs from the persisted entry's %v", p.AccountMetadata, np.AccountMetadata)
+					} else {
 						found = true
 						matched[l]++
-					} else {
-						why = "content differs from the persisted entry"
 					}
 				}
 			}
@@ -212,9 +216,16 @@ func eventOracle(w *worldRun) (string, string) {
 			_ = json.Unmarshal(env.Payload, &p)
 			for _, l := range visible {
 				if rp, ok := l.Data.(ledger.RevertedTransactionLogPayload); ok {
-					if rp.RevertedTransactionID.Cmp(p.Reverted.ID) == 0 && rp.RevertTransaction.ID.Cmp(p.Revert.ID) == 0 && fmt.Sprint(rp.RevertTransaction.Postings) == fmt.Sprint(p.Revert.Postings) {
-						found = true
-						matched[l]++
+					if rp.RevertedTransactionID.Cmp(p.Reverted.ID) == 0 && rp.RevertTransaction.ID.Cmp(p.Revert.ID) == 0 {
+						orig := originalOf(visible, rp.RevertedTransactionID)
+						if d := txDiff(rp.RevertTransaction, &p.Revert); d != "" {
+							why = "the reverting transaction differs from the persisted entry: " + d
+						} else if orig == nil || fmt.Sprint(orig.Postings) != fmt.Sprint(p.Reverted.Postings) || orig.Reference != p.Reverted.Reference {
+							why = fmt.Sprintf("the reverted transaction in the event (%v) is not the persisted transaction %s (%v)", p.Reverted.Postings, rp.RevertedTransactionID, orig)
+						} else {
+							found = true
+							matched[l]++
+						}
 					} else if rp.RevertTransaction.ID.Cmp(p.Reverted.ID) == 0 && rp.RevertedTransactionID.Cmp(p.Revert.ID) == 0 {
 						why = fmt.Sprintf("the event says transaction %s was reverted by %s, the log says %s was reverted by %s (roles swapped)", p.Reverted.ID, p.Revert.ID, rp.RevertedTransactionID, rp.RevertTransaction.ID)
 					}
@@ -229,6 +240,10 @@ func eventOracle(w *worldRun) (string, string) {
 			_ = json.Unmarshal(env.Payload, &p)
 			for _, l := range visible {
 				if sp, ok := l.Data.(ledger.SetMetadataLogPayload); ok && strings.EqualFold(sp.TargetType, p.TargetType) && fmt.Sprint(sp.TargetID) == p.TargetID && sp.Metadata["tag"] == p.Metadata["tag"] {
+					if fmt.Sprint(map[string]string(sp.Metadata)) != fmt.Sprint(p.Metadata) {
+						why = fmt.Sprintf("metadata %v differs from the persisted entry's %v", p.Metadata, sp.Metadata)
+						continue
+					}
 					found = true
 					matched[l]++
 				}
@@ -273,3 +288,42 @@ func eventOracle(w *worldRun) (string, string) {
 }
 
 var _ = big.NewInt
+
+// txDiff: what distinguishes the transaction an event carries from the persisted one ("" = nothing)
+func txDiff(want, got *ledger.Transaction) string {
+	switch {
+	case want.ID.Cmp(got.ID) != 0:
+		return fmt.Sprintf("id %s vs %s", got.ID, want.ID)
+	case fmt.Sprint(want.Postings) != fmt.Sprint(got.Postings):
+		return fmt.Sprintf("postings %v vs %v", got.Postings, want.Postings)
+	case fmt.Sprint(map[string]string(want.Metadata)) != fmt.Sprint(map[string]string(got.Metadata)) && !(len(want.Metadata) == 0 && len(got.Metadata) == 0):
+		return fmt.Sprintf("metadata %v vs %v", got.Metadata, want.Metadata)
+	case want.Reference != got.Reference:
+		return fmt.Sprintf("reference %q vs %q", got.Reference, want.Reference)
+	case !want.Timestamp.Time.Equal(got.Timestamp.Time):
+		return fmt.Sprintf("timestamp %s vs %s", got.Timestamp.Time, want.Timestamp.Time)
+	}
+	return ""
+}
+
+func accMetaEqual(a map[string]metadata.Metadata, b map[string]metadata.Metadata) bool {
+	norm := func(m map[string]metadata.Metadata) string {
+		out := map[string]map[string]string{}
+		for k, v := range m {
+			if len(v) > 0 {
+				out[k] = v
+			}
+		}
+		return fmt.Sprint(out)
+	}
+	return norm(a) == norm(b)
+}
+
+func originalOf(logs []*ledger.ChainedLog, id *big.Int) *ledger.Transaction {
+	for _, l := range logs {
+		if tx := txOfRow(l); tx != nil && tx.ID.Cmp(id) == 0 {
+			return tx
+		}
+	}
+	return nil
+}
